@@ -748,7 +748,7 @@ func (f *Frame) val(v ssa.Value) AV {
 	case *ssa.Const:
 		return f.constVal(x)
 	case *ssa.Function:
-		return AFunc{x}
+		return AFunc{fn: x}
 	case *ssa.Global:
 		return AGlobal{x}
 	case *ssa.Builtin:
@@ -832,7 +832,7 @@ func (f *Frame) nilness(av AV) *Form {
 		if x.nilSym != nil {
 			return formAtom(atomEQ(affSym(x.nilSym), affConst(1)))
 		}
-	case AFunc:
+	case AFunc, AFuncSet:
 		return formConst(false)
 	case AOpaque:
 		s := f.an.u.boolSym("nil(" + x.key + ")")
@@ -1031,7 +1031,11 @@ func (f *Frame) step(in ssa.Instruction) {
 	case *ssa.Select:
 		f.set(x, f.an.u.symbolic(f.key+x.Name(), x.Type()))
 	case *ssa.MakeClosure:
-		f.set(x, AFunc{x.Fn.(*ssa.Function)})
+		fv := AFunc{fn: x.Fn.(*ssa.Function)}
+		if strings.HasPrefix(fv.fn.Synthetic, "bound method wrapper") && len(x.Bindings) == 1 {
+			fv.recv = f.val(x.Bindings[0])
+		}
+		f.set(x, fv)
 	case *ssa.Lookup:
 		if tbl := f.tableOfValue(x.X); tbl != nil && tbl.isMap && !x.CommaOk {
 			if k, ok := f.intVal(x.Index); ok {
@@ -1163,6 +1167,26 @@ func (f *Frame) bindMerged(merged, incoming AV, st DNF) DNF {
 			out = f.bindMerged(fv, f.an.u.fieldOf(incoming, i), out)
 		}
 		return out
+	case AFuncSet:
+		switch iv := incoming.(type) {
+		case AFunc:
+			for i, a := range m.alts {
+				if describeAV(a) == describeAV(iv) {
+					return dnfAnd(st, DNF{Conj{atomEQ(affSym(m.sel), affConst(int64(i)))}})
+				}
+			}
+		case AFuncSet:
+			// sel of the incoming set determines ours
+			var out DNF
+			for j, a2 := range iv.alts {
+				for i, a := range m.alts {
+					if describeAV(a) == describeAV(a2) {
+						out = append(out, dnfAnd(st, DNF{Conj{atomEQ(affSym(iv.sel), affConst(int64(j))), atomEQ(affSym(m.sel), affConst(int64(i)))}})...)
+					}
+				}
+			}
+			return out
+		}
 	}
 	return st
 }
@@ -1213,7 +1237,50 @@ func (f *Frame) mergedValue(key string, t types.Type, vals []AV) AV {
 			fs[i] = f.mergedValue(key+"."+tt.Field(i).Name(), tt.Field(i).Type(), sub)
 		}
 		return AStructLit{typ: t, fields: fs}
-	case *types.Pointer, *types.Interface, *types.Signature:
+	case *types.Signature:
+		// every incoming value a known function: keep the set, selected by a fresh symbol
+		var alts []AFunc
+		known := true
+		for _, v := range vals {
+			switch fv := v.(type) {
+			case AFunc:
+				dup := false
+				for _, a := range alts {
+					if describeAV(a) == describeAV(fv) {
+						dup = true
+					}
+				}
+				if !dup {
+					alts = append(alts, fv)
+				}
+			case AFuncSet:
+				for _, a2 := range fv.alts {
+					dup := false
+					for _, a := range alts {
+						if describeAV(a) == describeAV(a2) {
+							dup = true
+						}
+					}
+					if !dup {
+						alts = append(alts, a2)
+					}
+				}
+			default:
+				known = false
+			}
+		}
+		if known && len(alts) >= 2 && len(alts) <= 8 {
+			return AFuncSet{key: key, alts: alts, sel: f.an.u.sym("sel("+key+")", 0, int64(len(alts)-1))}
+		}
+		return f.mergedRef(key, t, tt, vals)
+	case *types.Pointer, *types.Interface:
+		return f.mergedRef(key, t, tt, vals)
+	}
+	return f.an.u.symbolic(key, t)
+}
+
+func (f *Frame) mergedRef(key string, t types.Type, tt types.Type, vals []AV) AV {
+	{
 		r := f.newRef(key, t)
 		if _, isI := tt.(*types.Interface); isI {
 			r.deepNil = f.an.u.boolSym("nilptr(" + key + ")")
@@ -1259,7 +1326,6 @@ func (f *Frame) mergedValue(key string, t types.Type, vals []AV) AV {
 		}
 		return r
 	}
-	return f.an.u.symbolic(key, t)
 }
 
 func (f *Frame) phiValue(ph *ssa.Phi) AV {
